@@ -10,6 +10,7 @@ import (
 	"os"
 	"path/filepath"
 	"reflect"
+	"sort"
 	"strconv"
 	"strings"
 	"testing"
@@ -132,6 +133,40 @@ func (n JNode) set(comps []pathComp, v JNode) JNode {
 	return out
 }
 
+// remove deletes the member / element at comps (ok=false if it does not exist).
+func (n JNode) remove(comps []pathComp) (JNode, bool) {
+	if len(comps) == 0 {
+		return n, false
+	}
+	if _, ok := n.at(comps); !ok {
+		return n, false
+	}
+	out := n
+	c := normComp(n, comps[0])
+	idx := -1
+	if c.IsIdx {
+		idx = c.Idx
+	} else {
+		for i, k := range n.Keys {
+			if k == c.Key {
+				idx = i
+				break
+			}
+		}
+	}
+	if len(comps) > 1 {
+		out.Kids = append([]JNode{}, n.Kids...)
+		sub, ok := n.Kids[idx].remove(comps[1:])
+		out.Kids[idx] = sub
+		return out, ok
+	}
+	out.Kids = append(append([]JNode{}, n.Kids[:idx]...), n.Kids[idx+1:]...)
+	if n.K == "obj" {
+		out.Keys = append(append([]string{}, n.Keys[:idx]...), n.Keys[idx+1:]...)
+	}
+	return out, true
+}
+
 // genExistingPath walks the tree to a node (not the root). ok=false if the root has no addressable child.
 func genExistingPath(t *rapid.T, n JNode, simpleKeysOnly bool) ([]pathComp, bool) {
 	var comps []pathComp
@@ -235,7 +270,30 @@ func jnodeFromRaw(raw json.RawMessage) JNode {
 	if err != nil {
 		panic(err)
 	}
-	return n
+	// the placeholder / callback result is a Go value (map[string]any for an object): encoding/json writes map keys sorted
+	return n.sortedDeep()
+}
+
+func (n JNode) sortedDeep() JNode {
+	out := n
+	out.Kids = make([]JNode, len(n.Kids))
+	for i, k := range n.Kids {
+		out.Kids[i] = k.sortedDeep()
+	}
+	if n.K == "obj" {
+		idx := indices(len(n.Keys))
+		sort.SliceStable(idx, func(a, b int) bool { return n.Keys[idx[a]] < n.Keys[idx[b]] })
+		keys := make([]string, len(idx))
+		kids := make([]JNode, len(idx))
+		for i, j := range idx {
+			keys[i], kids[i] = n.Keys[j], out.Kids[j]
+		}
+		out.Keys, out.Kids = keys, kids
+	}
+	if len(out.Kids) == 0 {
+		out.Kids = n.Kids
+	}
+	return out
 }
 
 // looseEqual compares trees as JSON values: member order matters iff ordered; numbers numerically.
@@ -509,6 +567,24 @@ func genMatcherStep(t *rapid.T, kind string, cur JNode, comps []pathComp) matche
 			ph := rapid.SampledFrom(placeholderPool).Draw(t, "ph")
 			if kind == "yaml" {
 				ph = rapid.SampledFrom([]string{`"<Any value>"`, `"x"`, `42`, `true`, `{"k":1}`, `"longer placeholder text"`, `[1,2]`}).Draw(t, "yph")
+			} else if rel := rapid.IntRange(0, 5).Draw(t, "phrel"); rel < 3 {
+				// placeholders related to the value they replace: the value itself, a string spelling its JSON source
+				// text (escapes included, e.g. the 4 characters a\nb for the value "a<LF>b"), the same with the quotes
+				src := node.Compact()
+				switch rel {
+				case 0:
+					ph = src
+				case 1:
+					inner := src
+					if node.K == "str" && len(src) >= 2 {
+						inner = src[1 : len(src)-1]
+					}
+					b, _ := json.Marshal(inner)
+					ph = string(b)
+				default:
+					b, _ := json.Marshal(src)
+					ph = string(b)
+				}
 			}
 			ms.Placeholder = json.RawMessage(ph)
 		}
@@ -760,6 +836,11 @@ func checkC15(c c15Case) error {
 	if !looseEqual(cur, got, ordered) {
 		return fmt.Errorf("stored document is not the input with exactly the targeted values replaced (ordered=%v):\n input  %q\n want   %q\n stored %q", ordered, clip(c.docText()), clip(cur.Compact()), clip(got.Compact()))
 	}
+	// matcher VALUES built once and used for earlier documents first (a helper holding `var volatile = match.Any(...)`):
+	// the document must store what it stores through fresh matcher values
+	if err := checkC15Reuse(c, specs, form, stored); err != nil {
+		return err
+	}
 	// callbacks observe the document as left by the matchers before them
 	if len(r.Observed) != len(wantObs) {
 		return fmt.Errorf("custom callbacks were invoked %d times, want %d", len(r.Observed), len(wantObs))
@@ -770,6 +851,93 @@ func checkC15(c c15Case) error {
 		if string(a) != string(b) {
 			return fmt.Errorf("custom callback %d observed %s, the document at that point holds %s (matchers must take effect left to right)", i+1, a, b)
 		}
+	}
+	return nil
+}
+
+// c15WarmDocs: earlier documents for the reused matcher values: the document without the value at a later listed
+// path of a multi-path matcher (an earlier listed path still exists), without the first path of a matcher, and an
+// empty container.
+func c15WarmDocs(c c15Case) []JNode {
+	var out []JNode
+	for _, st := range c.Steps {
+		for k := len(st.More) - 1; k >= 0; k-- {
+			if st.More[k] == nil {
+				continue
+			}
+			if w, ok := c.Tree.remove(st.More[k]); ok {
+				out = append(out, w)
+				break
+			}
+		}
+	}
+	if len(c.Steps) > 0 {
+		if w, ok := c.Tree.remove(c.Steps[0].Comps); ok {
+			out = append(out, w)
+		}
+	}
+	out = append(out, JNode{K: c.Tree.K})
+	if len(out) > 3 {
+		out = out[:3]
+	}
+	return out
+}
+
+func checkC15Reuse(c c15Case, specs []MatcherSpec, form, storedFresh string) error {
+	if c.Tree.K != "obj" && c.Tree.K != "arr" {
+		return nil
+	}
+	rt := &matcherRT{}
+	var built []bothMatcher
+	for _, m := range specs {
+		built = append(built, rt.build(m))
+	}
+	root := scratchDir()
+	defer os.RemoveAll(root)
+	newProcess(Mode{})
+	spec := CfgSpec{Dir: "snaps", Filename: "f"}
+	if !c.SortKeys {
+		spec.JSON = &JSONCfg{SortKeys: false, Indent: " ", Width: 80}
+	}
+	if c.Kind == "sjson" {
+		spec.Filename = ""
+	}
+	text := func(n JNode) string {
+		cc := c
+		cc.Tree = n
+		return cc.docText()
+	}
+	warmForm := form
+	if warmForm == "value" {
+		warmForm = "string"
+	}
+	for i, w := range c15WarmDocs(c) {
+		if c.Kind == "yaml" && len(w.Kids) == 0 {
+			continue // the YAML rendering of an empty container is not part of the generator's grammar
+		}
+		ft := newFakeT(fmt.Sprintf("%sWarm%d", c.Test, i))
+		Call{API: c.Kind, Doc: BS(text(w)), Form: warmForm, prebuilt: built}.invoke(spec.build(root), ft)
+		ft.finish()
+	}
+	os.RemoveAll(filepath.Join(root, "snaps"))
+	ft := newFakeT(c.Test)
+	r := Call{API: c.Kind, Doc: BS(c.docText()), Form: form, prebuilt: built}.invoke(spec.build(root), ft)
+	ft.finish()
+	if out, _ := outcomeOf(r); out != oAdded {
+		return fmt.Errorf("through matcher values that were used for earlier documents the call ended as %q (errors %q); through fresh matcher values it stored %q", out, clipAll(r.Errors), clip(storedFresh))
+	}
+	got := ""
+	if c.Kind == "sjson" {
+		got = readFile(filepath.Join(root, spec.standalonePath(c.Test, 1, true)))
+	} else {
+		es, err := refParse(readFile(filepath.Join(root, spec.multiPath())))
+		if err != nil || len(es) != 1 {
+			return fmt.Errorf("reused matcher values: %d entries (%v)", len(es), err)
+		}
+		got = refUnescape(string(es[0].Body))
+	}
+	if got != storedFresh {
+		return fmt.Errorf("the same matcher values used for earlier documents change what this document stores:\n fresh  %q\n reused %q", clip(storedFresh), clip(got))
 	}
 	return nil
 }
